@@ -31,7 +31,8 @@ Items == <<
   I("{x", "fld"), I("{}", "fld"), I("{x!r:>{w}", "fld"), I("}", "lit"), I("{x:{w}", "fld"),                   \* 56-60 malformed
   I("\"\"\"", "dq"), I("\\\n", "cont"), I("'''", "sq"), I("\\t", "esc"), I("\\x41\\u00e9", "esc"),                  \* 61-65
   I("{x! r}", "fld"), I("\\x4", "esc"), I("\\N{NOPE}", "esc"), I("{!r}", "fld"), I("{:>4}", "fld"),          \* 66-70 invalid unless raw
-  I("{x!r x}", "fld"), I("\\u12", "esc"), I("{x!R}", "fld"), I("\\400", "esc"), I("{x;y}", "fld")             \* 71-75
+  I("{x!r x}", "fld"), I("\\u12", "esc"), I("{x!R}", "fld"), I("\\400", "esc"), I("{x;y}", "fld"),            \* 71-75
+  I("{x\n\n=}", "fldml"), I("{\n\n x \n\n}", "fldml"), I("{x:{y=}}", "fld"), I("{x\n  =\n !r\n}", "fldml"), I("{(x,\n\n y)=}", "fldml")   \* 76-80 blank lines inside fields
 >>
 Prefixes == <<"f", "F", "rf", "fr", "Rf", "fR", "RF", "Fr">>
 Quotes == <<"'", "\"", "'''", "\"\"\"">>
